@@ -85,6 +85,8 @@ impl SampleStreamTrack {
     /// Stop this track by marking it as ended
     pub fn stop(&self) {
         self.ended.store(true, std::sync::atomic::Ordering::SeqCst);
+        #[cfg(rustrtc_verif)]
+        crate::media::verif_sched::point("track.stop.before_notify");
         self.notify.notify_waiters();
     }
 }
@@ -175,12 +177,16 @@ impl SampleStreamSource {
 
         let sample = match self.queue.push(sample) {
             Ok(()) => {
+                #[cfg(rustrtc_verif)]
+                crate::media::verif_sched::point("track.send.after_push");
                 self.notify.notify_one();
                 return Ok(());
             }
             Err(sample) => sample,
         };
 
+        #[cfg(rustrtc_verif)]
+        crate::media::verif_sched::point("track.send.full");
         // Queue full: try drop-oldest under a short critical section.
         let _pop_guard = match self.pop_lock.try_lock() {
             Some(guard) => guard,
@@ -283,7 +289,11 @@ impl Drop for SampleStreamSource {
             .fetch_sub(1, std::sync::atomic::Ordering::AcqRel)
             == 1
         {
+            #[cfg(rustrtc_verif)]
+            crate::media::verif_sched::point("track.drop.before_close");
             self.source_closed.store(true, Ordering::Release);
+            #[cfg(rustrtc_verif)]
+            crate::media::verif_sched::point("track.drop.before_notify");
             self.notify.notify_waiters();
         }
     }
@@ -502,6 +512,8 @@ impl MediaStreamTrack for SampleStreamTrack {
                 if let Some(sample) = self.queue.pop() {
                     return Ok(sample);
                 }
+                #[cfg(rustrtc_verif)]
+                crate::media::verif_sched::point("track.recv.after_empty_pop");
 
                 if self.source_closed.load(Ordering::Acquire) {
                     self.ended.store(true, Ordering::SeqCst);
@@ -509,6 +521,8 @@ impl MediaStreamTrack for SampleStreamTrack {
                 }
             }
 
+            #[cfg(rustrtc_verif)]
+            crate::media::verif_sched::point("track.recv.before_wait");
             self.notify.notified().await;
             if self.source_closed.load(Ordering::Acquire) && self.queue.is_empty() {
                 self.ended.store(true, Ordering::SeqCst);
